@@ -17,7 +17,7 @@ from common import VERIF, env_offline, scratch_root
 _driver = {}
 
 KIND_HINTS = [("array", "array"), ("vec", "vec"), ("range", "range"), ("slice", "slice"), ("bufinner", "iter"), ("iter", "iter"),
-              ("cloned", "slice"), ("copied", "slice"), ("foreach", "slice"), ("fold", "slice"), ("counter", "slice,range,vec,array,iter"),
+              ("cloned", "cloned,slice"), ("copied", "copied,slice"), ("adaptors", "cloned,copied"), ("wrappers", "slice,vec"), ("chunkiter", "vec,array"), ("foreach", "slice"), ("fold", "slice"), ("counter", "slice,range,vec,array,iter"),
               ("klemmas", "slice,range"), ("tlemmas", "iter")]
 
 # Verus obligations -> Kani harnesses that assert the same clause on the compiled crate
